@@ -923,6 +923,26 @@ class Interp:
                         root = ('O', 'constalloc#%d' % st.n['obj'])
                         st.mem[root] = val
                         return ('ref', root, ())
+                if 'struct' in o and all(int_type(f_['ty']) or f_['ty'] == 'bool' for f_ in o['struct']['fields']) and \
+                        all(0 <= f_['offset'] and f_['offset'] + max(f_['size'], 0) <= len(b) for f_ in o['struct']['fields']):
+                    # a struct constant whose fields are all integers: read the fields out of the allocation
+                    sname = o['struct']['name']
+                    vals = []
+                    for f_ in o['struct']['fields']:
+                        raw = int.from_bytes(bytes(b[f_['offset']:f_['offset'] + f_['size']]), 'little')
+                        bits_ = 1 if f_['ty'] == 'bool' else int_type(f_['ty'])[0]
+                        vals.append(C(bits_, raw & T.mask(bits_)))
+                    names_ = [f_['name'] for f_ in o['struct']['fields']]
+                    if sname.endswith('ops::RangeInclusive') and names_ == ['start', 'end', 'exhausted']:
+                        val = ('agg', IT_RINC, tuple(vals))
+                    else:
+                        val = ('agg', ('adt', sname, 0, sname.split('::')[-1]), tuple(vals))
+                    if not isref:
+                        return val
+                    st.n['obj'] += 1
+                    root = ('O', 'constalloc#%d' % st.n['obj'])
+                    st.mem[root] = val
+                    return ('ref', root, ())
                 arr = ('agg', ('array',), tuple(C(8, x) for x in b))
                 mt = re.match(r'^&*\s*\[(\w+)(?:;\s*\d+)?\]$', tyname)
                 if mt and int_type(mt.group(1)) and int_type(mt.group(1))[0] > 8:
@@ -1428,6 +1448,14 @@ class Interp:
             yield (ret, st, 'ok', None)
             return
         if callee in self.fns:
+            if t['callee'] in ('std::ops::Fn::call', 'std::ops::FnMut::call_mut', 'std::ops::FnOnce::call_once') and \
+                    '{closure' in callee and len(args) == 2:
+                # a direct closure call passes the arguments as one tuple; the closure body takes them spread
+                tup = args[1]
+                if tup == T.UNIT:
+                    args = [args[0]]
+                elif tup is not None and tup[0] == 'agg' and tup[1] == ('tuple',):
+                    args = [args[0]] + list(tup[2])
             for r in self.call_fn(callee, args, st, fr.depth + 1, site):
                 if r.status == 'ok':
                     yield (r.ret, r.state, 'ok', None)
@@ -2370,6 +2398,110 @@ def m_and_then(ip, st, fr, t, args, site, dest_ty):
     yield from call_some(st, inner)
 
 
+def call_closure(ip, st, fr, clo, cargs, site):
+    """call a closure value with already-spread arguments: generator of (ret, state, status, detail).  The closure
+    body takes the closure by value (FnOnce) or by reference (Fn / FnMut) depending on how it was compiled"""
+    cpath = clo[1][1]
+    fn = ip.fns.get(cpath)
+    if fn is None:
+        yield (None, st, 'abort', 'closure body %s not in the crate' % cpath)
+        return
+    self_ty = fn['locals'][1]['ty'] if len(fn['locals']) > 1 else ''
+    first = clo
+    if self_ty.startswith('&'):
+        st.n['obj'] += 1
+        root = ('O', 'closure#%d' % st.n['obj'])
+        st.mem[root] = clo
+        first = ('ref', root, ())
+    for r in ip.call_fn(cpath, [first] + list(cargs), st, fr.depth + 1, site):
+        if r.status == 'ok':
+            yield (r.ret, r.state, 'ok', None)
+        else:
+            yield (None, r.state, r.status, (r.where, r.detail))
+
+
+def m_iter_any_all(which):
+    """Iterator::any / all over a modelled iterator whose length is decided: the closure is called item by item"""
+    def model(ip, st, fr, t, args, site, dest_ty):
+        itr, clo = args
+        cur = ip.read(st, itr[1], itr[2]) if (itr is not None and itr[0] == 'ref') else None
+        if clo is None or clo[0] != 'agg' or clo[1][0] != 'closure' or iter_steps(cur) is None:
+            yield from ip.unknown_external(st, t['resolved'] or t['callee'], args, site, dest_ty, t)
+            return
+        stop_on = 1 if which == 'any' else 0
+
+        def go(s, curv, depth):
+            if depth > 64:
+                yield (None, s, 'loop', 'iterator too long to unroll')
+                return
+            live = []
+            for cond, item, new in iter_steps(curv):
+                cv = s.env.const_of(cond) if cond is not None else 1
+                if cv != 0:
+                    live.append((cond, item, new, cv))
+            if len(live) != 1 or live[0][3] != 1:
+                yield (None, s, 'loop', 'undecided iterator length in any/all')
+                return
+            cond, item, new, _ = live[0]
+            ip.write(s, itr[1], itr[2], new, site)
+            if item is None:
+                yield (C(1, 1 - stop_on), s, 'ok', None)
+                return
+            for (ret, s2, status, detail) in call_closure(ip, s, fr, clo, [item], site):
+                if status != 'ok':
+                    yield (ret, s2, status, detail)
+                    continue
+                if ret is None or not is_int(ret):
+                    yield (s2.fresh(1, which), s2, 'ok', None)
+                    continue
+                cv = s2.env.const_of(ret)
+                if cv is not None:
+                    if cv == stop_on:
+                        yield (C(1, stop_on), s2, 'ok', None)
+                    else:
+                        yield from go(s2, new, depth + 1)
+                    continue
+                s3 = s2.copy()
+                if s3.env.assume_eq(ret, stop_on):
+                    s3.decisions.append((ret, which, site))
+                    yield (C(1, stop_on), s3, 'ok', None)
+                if s2.env.assume_eq(ret, 1 - stop_on):
+                    s2.decisions.append((ret, which, site))
+                    yield from go(s2, new, depth + 1)
+        yield from go(st, cur, 0)
+    return model
+
+
+def m_mem_swap(ip, st, fr, t, args, site, dest_ty):
+    a, b = args
+    if a is not None and b is not None and a[0] == 'ref' and b[0] == 'ref':
+        va = ip.read(st, a[1], a[2])
+        vb = ip.read(st, b[1], b[2])
+        if va is not None and vb is not None:
+            ip.write(st, a[1], a[2], vb, site)
+            ip.write(st, b[1], b[2], va, site)
+            yield (T.UNIT, st, 'ok', None)
+            return
+    yield from ip.unknown_external(st, t['resolved'] or t['callee'], args, site, dest_ty, t)
+
+
+def m_range_contains(ip, st, fr, t, args, site, dest_ty):
+    """RangeInclusive / Range ::contains(&item)"""
+    rng, item = args
+    rv = ip.read(st, rng[1], rng[2]) if (rng is not None and rng[0] == 'ref') else rng
+    iv = ip.read(st, item[1], item[2]) if (item is not None and item[0] == 'ref') else item
+    if rv is not None and rv[0] == 'agg' and iv is not None and is_int(iv):
+        if rv[1] == IT_RINC and rv[2][2] == C(1, 0):
+            lo, hi = rv[2][0], rv[2][1]
+            yield (O(1, 'and', O(1, 'ule', lo, iv), O(1, 'ule', iv, hi)), st, 'ok', None)
+            return
+        if rv[1][0] == 'adt' and rv[1][1].endswith('ops::Range') and len(rv[2]) == 2:
+            lo, hi = rv[2]
+            yield (O(1, 'and', O(1, 'ule', lo, iv), O(1, 'ult', iv, hi)), st, 'ok', None)
+            return
+    yield from ip.unknown_external(st, t['resolved'] or t['callee'], args, site, dest_ty, t)
+
+
 def m_option_map(ip, st, fr, t, args, site, dest_ty):
     """Option::map(opt, closure): None stays None, Some(x) becomes Some(closure(x))"""
     opt, clo = args
@@ -2499,6 +2631,11 @@ STD_MODELS = {
     'core::slice::<impl [T]>::get': m_slice_get,
     'core::slice::<impl [T]>::get_mut': m_slice_get,
     'std::iter::Iterator::enumerate': m_enumerate,
+    'std::iter::Iterator::any': m_iter_any_all('any'),
+    'std::iter::Iterator::all': m_iter_any_all('all'),
+    'std::mem::swap': m_mem_swap,
+    'std::ops::RangeInclusive::<Idx>::contains': m_range_contains,
+    'std::ops::Range::<Idx>::contains': m_range_contains,
     'std::iter::Iterator::rev': m_rev,
     'std::ops::RangeInclusive::<Idx>::new': m_range_inclusive_new,
     'std::mem::replace': m_mem_replace,
